@@ -307,10 +307,12 @@ func cmdCheck(args []string) int {
 		return 2
 	}
 	timeout := 10000
+	maxPaths := 200000
 	if tier == "thorough" {
 		timeout = 60000
+		maxPaths = 3000000
 	}
-	opts := RunOpts{WitnessPerJob: 2, MaxPaths: 200000, MaxInstr: 20_000_000, TimeoutMs: timeout, Solver: "z3", Workers: 16,
+	opts := RunOpts{WitnessPerJob: 2, MaxPaths: maxPaths, MaxInstr: 20_000_000, TimeoutMs: timeout, Solver: "z3", Workers: 16,
 		Verbose: os.Getenv("RUXSYM_VERBOSE") != ""}
 	if s := os.Getenv("RUXSYM_SOLVER"); s != "" {
 		opts.Solver = s
